@@ -20,6 +20,7 @@
 //   vt    V                 vt100_left(buf, (int)V); result: <buffer hex> <return value>
 //   h2h   CC                hex2half((char)CC); result: 2 hex digits
 #include "common/hv.h"
+#include <array>
 #include <climits>
 #include <cerrno>
 #include <igris/util/numconvert.h>
@@ -708,9 +709,13 @@ static void gen(rng &r, const std::string &tier)
     }
     // sampled 32- and 64-bit ranges with large odd strides (model hashed against code)
     for (unsigned base = 2; base <= 36; base++)
-        for (int k : {I32, U32, I64, U64})
+        for (int ki = 0; ki < 4; ki++)
+        {
+            static const int K4[4] = {I32, U32, I64, U64};
+            const int k = K4[ki];
             printf("rng %s %u %016llx %d %llu\n", KNAME[k], base, (unsigned long long)r.next(), th ? 4096 : 256,
                    (unsigned long long)((r.next() >> (KBITS[k] == 32 ? 44 : 6)) | 1));
+        }
 
     // (3) parse side: digit strings of each base followed by every terminator byte
     std::vector<unsigned> bases;
@@ -820,10 +825,12 @@ static void gen_wrapper(rng &r, const std::string &tier)
     if (tier != "thorough") return;
     uint64_t part = g_seed % NPART, span = (1ull << 32) / NPART;
     const uint64_t CH = 1ull << 18; // ~0.1 s per op: far below the 3 s per-op watchdog even on a loaded machine
-    for (int k : {I32, U32})
-        for (unsigned base : {10u, 16u})
+    static const int K2[2] = {I32, U32};
+    static const unsigned B2[2] = {10u, 16u};
+    for (int ki = 0; ki < 2; ki++)
+        for (int bi = 0; bi < 2; bi++)
             for (uint64_t lo = part * span; lo < (part + 1) * span; lo += CH)
-                printf("sweep %s %u %016llx %llu\n", KNAME[k], base, (unsigned long long)extend(lo, 32, k == I32), (unsigned long long)CH);
+                printf("sweep %s %u %016llx %llu\n", KNAME[K2[ki]], B2[bi], (unsigned long long)extend(lo, 32, K2[ki] == I32), (unsigned long long)CH);
 }
 
 int main(int argc, char **argv)
